@@ -25,7 +25,8 @@ mod verif_native {
         }
         if let Some(rest) = s.strip_suffix(']') {
             if let Some((inner, n)) = rest.rsplit_once('[') {
-                if let Ok(n) = n.parse::<usize>() {
+                // canonical decimal only: "uint8[02]" / "uint8[+2]" are not spellings of uint8[2] (the type string is hashed as declared)
+                if let Some(n) = n.parse::<usize>().ok().filter(|x| x.to_string() == n) {
                     return Ty::Array(Box::new(parse_ty(inner)), Some(n));
                 }
             }
@@ -379,6 +380,16 @@ mod verif_native {
             if compare(&defs, "P", &dom, msg.as_object().unwrap()) { accepted += 1; }
             cases += 1;
         }
+        // member-less structs: only the empty object is a value, at the top level, nested and inside arrays
+        let defs: Defs = vec![dom_def.clone(), d("P", &[("e", "E"), ("es", "E[]")]), d("E", &[])];
+        for msg in [json!({"e": {}, "es": []}), json!({"e": {}, "es": [{}, {}]}), json!({"e": {"x": 1}, "es": []}), json!({"e": {}, "es": [{}, {"z": 0}]}), json!({"e": [], "es": []}), json!({"e": null, "es": []})] {
+            if compare(&defs, "P", &dom, msg.as_object().unwrap()) { accepted += 1; }
+            cases += 1;
+        }
+        for msg in [json!({}), json!({"a": 1}), json!({"to": "0x00", "amount": "1000"})] {
+            if compare(&defs, "E", &dom, msg.as_object().unwrap()) { accepted += 1; }
+            cases += 1;
+        }
         // missing primary type / missing domain values / extra domain values
         let defs: Defs = vec![dom_def.clone(), d("P", &[("a", "uint8")])];
         let msg = json!({"a": 1}).as_object().unwrap().clone();
@@ -449,8 +460,8 @@ mod verif_native {
         println!("VERIF-NATIVE-CASES nb_domain_types_enumerated {cases} nontrivial {accepted}");
     }
 
-    /// bound: the atomic type grammar: every keyword, bytes0..=40, uint/int 0..=300 (canonical spelling, no leading zeros), 11 non-ASCII names, and array
-    /// suffix combinations up to depth 3 with sizes {none, 0, 1, 18446744073709551615} plus depth 64: parse -> print is
+    /// bound: the atomic type grammar: every keyword, bytes0..=40, uint/int 0..=300 (canonical spelling, no leading zeros), 11 non-ASCII names, 13 non-canonical spellings (uint08, uint+8, …), and array
+    /// suffix combinations up to depth 3 with sizes {none, 0, 1, 18446744073709551615, 02, +2, ' 2', -1} plus depth 64: parse -> print is
     /// the identity on canonical strings and the parsed kind agrees with the reference grammar
     #[test]
     fn nb_member_kind_grammar() {
@@ -466,10 +477,12 @@ mod verif_native {
         }
         let mut bases: Vec<String> = ["bool", "address", "string", "bytes", "Person", "uint", "int", "byte", "uint8x", "Bool", "",
             // non-ASCII names, Unicode numerics, digits after multi-byte characters
+            // non-canonical numbers and stray characters after the keyword: struct names, not atomic types
+            "uint08", "int008", "bytes04", "bytes032", "uint+8", "int+256", "bytes+4", "int-8", "uint 8", "uint8 ", "uint_8", "uint8x8", "uint0x8",
             "\u{e9}1", "Gr\u{f6}\u{df}e2", "\u{b2}", "uint\u{b2}", "\u{661}\u{662}", "bytes\u{661}", "\u{dc}nit8", "\u{540d}\u{524d}", "\u{540d}\u{524d}1", "\u{1f980}8", "a\u{301}9"].iter().map(|s| s.to_string()).collect();
         for n in 0..=40 { bases.push(format!("bytes{n}")); }
         for n in 0..=300 { bases.push(format!("uint{n}")); bases.push(format!("int{n}")); }
-        let suffixes = ["", "[]", "[0]", "[1]", "[18446744073709551615]"];
+        let suffixes = ["", "[]", "[0]", "[1]", "[18446744073709551615]", "[02]", "[+2]", "[ 2]", "[-1]"];
         let mut cases = 0u64;
         for b in &bases {
             for s1 in suffixes { for s2 in suffixes { for s3 in suffixes {
